@@ -1980,10 +1980,13 @@ def run(ck):
                    "checkMotion, distance/interpolate of the space, validSegmentCount and every double rounding step are oracles/parameters of the model; "
                    "the driver instantiates distance/interpolate with the shared space models (C06/C07) and takes checkMotion answers and validSegmentCount from the recorded transcript",
                    "the Python oracle's geometry (collinearity within 1e-8, obstacle re-validation with boxes shrunk by the checking resolution)"]
-    ck.assumptions += ["input paths are valid (check() true) and lie in R^2, R^3 or SE(2) with box obstacles; delta, rangeRatio, snapToVertex are non-negative finite",
+    ck.assumptions += ["input paths are valid (check() true) and lie in R^2, R^3, SE(2), Dubins or a weighted compound R^2 x SO(2) (zero weights included) with box obstacles; delta, rangeRatio, snapToVertex are non-negative finite",
                        "\"never longer\" is demanded for reduceVertices, collapseCloseVertices, ropeShortcutPath, partialShortcutPath under the path-length objective; "
-                       "own-objective non-worsening is demanded for the path-length objective only (for clearance / cost-integral objectives a cut point changes the "
-                       "objective's own discretisation; those runs are held to endpoints + validated motions)",
+                       "own-objective non-worsening of path.cost(obj) is demanded for rope / pshort / perturb under the objectives whose motion cost is additive along "
+                       "interpolated states (path length, mechanical work over a linear field, `lin` = cost integral over a linear field, `wreg` = length weighted by an "
+                       "expensive region in closed form) and for findBetterGoal under every objective; for clearance / non-linear cost-integral objectives a cut point "
+                       "changes the objective's own discretisation: those runs are held to endpoints + validated motions",
+                       "pseudo-metric scenarios keep headings within +-1.45 rad so that SO(2) interpolation is linear and the oracle's geometry is that of R^3",
                        "randomised routines: trace conformance on the explored seeds only"]
     ck.lean_build(LEAN_TARGETS)
     ck.audit(roots=["Drv.PathOps"])
@@ -2157,7 +2160,14 @@ MANIFEST = {
             "paths (0 / 1 / 2 states, all equal, repeated states); F171 (interpolate() on an empty path), F172 (perturbPath on fewer than two states) and F173 (ropeShortcutPath "
             "did not return under a non-additive objective) are fixed and modelled as fixed (RopeEnv.chord = pricing by the densified pieces; "
             "the end-point pricing is the former variant with a witness theorem); the non-return detector (a checkMotion budget in the "
-            "recording validator, no wall clock) stays armed and is a violation.",
+            "recording validator, no wall clock) stays armed and is a violation. Round 10: partialShortcutPath is modelled as a whole routine under an "
+            "ARBITRARY objective (Model/PathOpsShortcutObj.lean; the cost test alongPath vs motionCost(s0, s1) as coded) and runs in lock-step under seven "
+            "objectives (op `pshorto`); proved for it: preserves (every objective), every executed splice passed the routine's own cost test, alongPath is the "
+            "cost of the replaced piece, and — additive objective, non-negative costs, additive cuts — cost(out) <= cost(in) for the whole routine incl. the "
+            "splice ending at the last vertex; the variant that starts alongPath at the segment containing the earlier sample is kept with a witness and is "
+            "named by the check. Scenarios: exactly additive non-metric objectives (`lin`, `wreg`) with own-objective non-worsening demanded of rope / pshort / "
+            "perturb / findBetterGoal, directed detours around an expensive region, pseudo-metric compound spaces (zero subspace weight, obstacles over "
+            "(x, y, heading)) through every routine.",
     "note": "Trusted: Lean kernel, the three standard axioms, the hand-written models outside the explored scripts, the harness "
             "(which compiles the two source files under test into its own translation unit, proxies the private rng_ and installs a "
             "scripted sampler), the Python oracle's geometry, boost's Dijkstra (assumed to return a shortest walk). IEEE rounding is "
